@@ -80,6 +80,7 @@ pub fn replay_rows(tlc_out: &str, rep: &mut Report) {
             }
         };
         rep.count("rows");
+        rep.ctx = Some(json!({"sub": "lex-replay", "row": payload}));
         let line_bytes = from_bytes(&row["line"]);
         let Ok(line) = String::from_utf8(line_bytes.clone()) else {
             rep.count("rows_not_utf8");
